@@ -241,3 +241,108 @@ def c05_attribute(sig, sc, outs):
             if name in ("request_body_data", "tx_request_body_data", "request_file_data") and prev >= 6:
                 return "S26"       # unexpected body after the end of the message (REQ_FINALIZE)
     return sig
+
+
+# ================================================================================================ C06
+
+def wellformed_case(rng, opts=None, n=None):
+    """one well-formed exchange with ground truth: returns dict(reqs, ress, R, S)"""
+    reqs, ress, rq, rs = traffic.gen_exchange(rng, n=n, opts=opts or {"folding": False, "repeat": False, "close_delimited": True})
+    return {"reqs": reqs, "ress": ress, "rq": rq, "rs": rs, "R": b"".join(rq), "S": b"".join(rs)}
+
+
+def wire_body_len(m):
+    """number of body bytes on the wire: identity = |body|; chunked = chunk-size lines, data, CRLFs and the last-chunk line"""
+    if m.body_kind in ("cl", "close"):
+        return len(m.body)
+    if m.body_kind == "chunked":
+        return m.wire_len
+    return 0
+
+
+def c06_scripts(ctx):
+    rng = ctx.rng
+    n = 500 if ctx.tier == "quick" else 4000
+    out, meta = [], []
+    for _ in range(n):
+        w = wellformed_case(rng)
+        # remember wire length of chunked bodies: re-render deterministically is not possible (random case of hex), so measure
+        for m, raw in list(zip(w["reqs"], w["rq"])) + list(zip(w["ress"], w["rs"])):
+            if m.body_kind == "chunked":
+                head_end = raw.index(b"\r\n\r\n") + 4
+                tail = raw[head_end:]
+                # up to and including the last-chunk line "0\r\n"
+                k = tail.rindex(b"\r\n0\r\n") + 5 if b"\r\n0\r\n" in tail else (3 if tail.startswith(b"0\r\n") else 0)
+                m.wire_len = k
+        mode_r = rng.choice(("whole", "bytes", "rand", ("cut", rng.randint(1, max(1, len(w["R"]) - 1)))))
+        mode_s = rng.choice(("whole", "bytes", "rand", ("cut", rng.randint(1, max(1, len(w["S"]) - 1)))))
+        items = [">" + traffic.hx(p) for p in traffic.chunkings(w["R"], rng, mode_r)] + \
+                ["<" + traffic.hx(p) for p in traffic.chunkings(w["S"], rng, mode_s)]
+        out.append(traffic.script(rng.choice(("respdecomp=0", "p=IDS,respdecomp=0", "p=APACHE_2,respdecomp=0")), "-", items))
+        meta.append(w)
+    # accounting part: all inputs
+    acc = mixed_scripts(ctx, 300 if ctx.tier == "quick" else 3000, policy_p=0.0, tail=False,
+                        cfg_fn=lambda r: r.choice(("respdecomp=0", "p=IDS,respdecomp=0")))
+    return out, meta, acc
+
+
+def body_events_by_tx(sc, outs):
+    req, res = {}, {}
+    for e in cl.all_events(sc, outs):
+        if e.name == "request_body_data":
+            req.setdefault(e.tx, []).append(e)
+        elif e.name == "response_body_data":
+            res.setdefault(e.tx, []).append(e)
+    return req, res
+
+
+def c06_accounting(sc, outs):
+    """for every input: entity_len = bytes delivered; message_len >= entity_len when nothing is decompressed"""
+    found = []
+    req, res = body_events_by_tx(sc, outs)
+    g, slots = cl.final_dump(sc, outs)
+    for t in slots or []:
+        if not t:
+            continue
+        uid = int(t["uid"])
+        for side, evs, el, ml in (("request", req.get(uid, []), "el", "ml"), ("response", res.get(uid, []), "sel", "sml")):
+            delivered = sum((len(e.data) if e.kind == "bytes" else (e.data if e.kind == "gap" else 0)) for e in evs)
+            if int(t[el]) != delivered:
+                found.append(("entity-len", "%s entity_len=%s but %d bytes were delivered to body callbacks (tx %d)" % (side, t[el], delivered, uid)))
+            if int(t[ml]) < int(t[el]):
+                found.append(("S9" if side == "request" else "message-len",
+                              "%s message_len=%s < entity_len=%s (tx %d)" % (side, t[ml], t[el], uid)))
+    return found
+
+
+def make_c06_oracle(meta_by_id):
+    def oracle(sc, outs):
+        found = c06_accounting(sc, outs)
+        w = meta_by_id.get(id(sc))
+        if w is None:
+            return found
+        req, res = body_events_by_tx(sc, outs)
+        g, slots = cl.final_dump(sc, outs)
+        n = len(w["reqs"])
+        if not slots or len(slots) != n:
+            found.append(("tx-count", "%d transactions reported for %d exchanges" % (len(slots or []), n)))
+            return found
+        evs = list(cl.all_events(sc, outs))
+        for i, (rq, rs, t) in enumerate(zip(w["reqs"], w["ress"], slots)):
+            for side, m, be, el, ml, comp in (("request", rq, req.get(i, []), "el", "ml", "request_complete"),
+                                              ("response", rs, res.get(i, []), "sel", "sml", "response_complete")):
+                got = b"".join(e.data for e in be if e.kind == "bytes")
+                if got != m.body:
+                    found.append(("body-bytes", "%s body of tx %d: delivered %r..., sent %r..." % (side, i, got[:30], m.body[:30])))
+                if m.body_kind != "none":
+                    # end-of-body marker before the completion callback
+                    idx_c = next((k for k, e in enumerate(evs) if e.name == comp and e.tx == i), None)
+                    marker = any(e.tx == i and e.name == side + "_body_data" and e.kind == "null" for e in evs[:idx_c] if idx_c is not None)
+                    if idx_c is None or not marker:
+                        found.append(("no-end-marker", "%s of tx %d has a body but no end-of-body marker before %s" % (side, i, comp)))
+                if int(t[el]) != len(m.body):
+                    found.append(("entity-len", "%s entity_len=%s, body is %d bytes (tx %d)" % (side, t[el], len(m.body), i)))
+                if int(t[ml]) != wire_body_len(m):
+                    found.append(("message-len", "%s message_len=%s, %d body bytes on the wire (tx %d)" % (side, t[ml], wire_body_len(m), i)))
+        return found
+    return oracle
